@@ -75,47 +75,50 @@ def work(item):
         d1, d2 = item[1], item[2]
         pool = Pool(nslots=3, nbufs=3, solver=solver)
         st0 = pool.initial()
-        setup = [Ins('EXTERNAL', t=0, x=d1, ext=0), Ins('EXTERNAL', t=1, x=d2, ext=1), Ins('SIZED', t=2, x=d1)]
-        st = st0
-        for ins in setup:
-            rs = pool.step(st, ins)
-            assert len(rs) == 1 and rs[0].status == 'ok' and rs[0].retval == 0, rs
-            st = rs[0].state
         nheld = 0
-        for name, mk in BINARY:
-            ins = mk() if mk else Ins('ROTMAT', t=2, s1=0, x=d2)
-            log = []
-            s = st.clone()
-            s.access_hook = make_monitor(pool, d1, d2, log)
-            before = [raw_tuple(pool, s, k) for k in (0, 1)]
-            bv = [pool.buffer_values(s, b) for b in (0, 1)]
-            rs = pool.step(s, ins)
-            exstats.append(dict(pool.ex.stats))
-            prog = setup + [ins]
-            key = 'binary:%s' % name
-            ok = True
-            for r in rs:
-                if r.status == 'error':
-                    cand(key, '%s with dimensions (%d,%d): %s: %s' % (name, d1, d2, r.info['kind'], r.info['msg']), prog, d1=d1, d2=d2, expect='throw')
+        for shared in (False, True):
+            # shared: both operands are views of ONE user buffer (different dimensions over the same storage)
+            setup = [Ins('EXTERNAL', t=0, x=d1, ext=0), Ins('EXTERNAL', t=1, x=d2, ext=0 if shared else 1), Ins('SIZED', t=2, x=d1)]
+            st = st0
+            for ins in setup:
+                rs = pool.step(st, ins)
+                assert len(rs) == 1 and rs[0].status == 'ok' and rs[0].retval == 0, rs
+                st = rs[0].state
+            for name, mk in BINARY:
+                ins = mk() if mk else Ins('ROTMAT', t=2, s1=0, x=d2)
+                log = []
+                s = st.clone()
+                s.access_hook = make_monitor(pool, max(d1, d2) if shared else d1, d2, log)
+                before = [raw_tuple(pool, s, k) for k in (0, 1)]
+                bv = [pool.buffer_values(s, b) for b in (0, 1)]
+                rs = pool.step(s, ins)
+                exstats.append(dict(pool.ex.stats))
+                prog = setup + [ins]
+                key = 'binary:%s%s' % (name, ':shared-buffer' if shared else '')
+                name = name + (' [both operands view one user buffer]' if shared else '')
+                ok = True
+                for r in rs:
+                    if r.status == 'error':
+                        cand(key, '%s with dimensions (%d,%d): %s: %s' % (name, d1, d2, r.info['kind'], r.info['msg']), prog, d1=d1, d2=d2, expect='throw')
+                        ok = False
+                        continue
+                    if r.status != 'ok' or r.retval != 1:
+                        cand(key, '%s with dimensions (%d,%d) does not raise an exception (returns %r)' % (name, d1, d2, r.retval), prog, d1=d1, d2=d2, expect='throw')
+                        ok = False
+                        continue
+                    after = [raw_tuple(pool, r.state, k) for k in (0, 1)]
+                    av = [pool.buffer_values(r.state, b) for b in (0, 1)]
+                    if after != before or any(x is not y for b in (0, 1) for x, y in zip(av[b], bv[b])):
+                        cand(key, '%s with dimensions (%d,%d) throws but modifies an operand' % (name, d1, d2), prog, d1=d1, d2=d2, expect='throw')
+                        ok = False
+                if log:
+                    cand(key, '%s with dimensions (%d,%d) accesses memory outside the operands\' components (%s of %d bytes at offset %d of a %d-double operand)' % (
+                        name, d1, d2, log[0][0], log[0][2], log[0][1], d1 * d1), prog, d1=d1, d2=d2, expect='throw')
                     ok = False
-                    continue
-                if r.status != 'ok' or r.retval != 1:
-                    cand(key, '%s with dimensions (%d,%d) does not raise an exception (returns %r)' % (name, d1, d2, r.retval), prog, d1=d1, d2=d2, expect='throw')
-                    ok = False
-                    continue
-                after = [raw_tuple(pool, r.state, k) for k in (0, 1)]
-                av = [pool.buffer_values(r.state, b) for b in (0, 1)]
-                if after != before or any(x is not y for b in (0, 1) for x, y in zip(av[b], bv[b])):
-                    cand(key, '%s with dimensions (%d,%d) throws but modifies an operand' % (name, d1, d2), prog, d1=d1, d2=d2, expect='throw')
-                    ok = False
-            if log:
-                cand(key, '%s with dimensions (%d,%d) accesses memory outside the operands\' components (%s of %d bytes at offset %d of a %d-double operand)' % (
-                    name, d1, d2, log[0][0], log[0][2], log[0][1], d1 * d1), prog, d1=d1, d2=d2, expect='throw')
-                ok = False
-            if ok:
-                nheld += 1
+                if ok:
+                    nheld += 1
         out['obligations'].append({'obligation': 'binary entry points with dimensions (%d,%d): exception, operands bit-identical, no access outside the operands' % (d1, d2),
-                                   'verdict': '%d of %d hold' % (nheld, len(BINARY))})
+                                   'verdict': '%d of %d hold (each entry point with separate buffers and with both operands viewing one user buffer)' % (nheld, 2 * len(BINARY))})
         out['witnesses']['reachability'] += nheld
         pool.ex.stats['paths'] = 0
     elif kind == 'ctor':
